@@ -356,6 +356,26 @@ class C15(Prop):
                 nontriv += 1
             if pr != observed:
                 corr_fail.append((name, observed, pr))
+        # an IN-MEMORY session (`Db::in_memory()`) started with the same data directory between two
+        # on-disk starts must leave the directory alone: whatever state it was in — also after a
+        # build that was killed — the next on-disk start still answers from the shipped data
+        mem_hist = [(prior, []) for prior in PRIOR] + [(prior, [cp]) for prior in ("absent", "complete", "other-data", "index-emptied", "other-version")
+                                                       for cp in (CRASH_POINTS if tier == "thorough" else [1, 4, 10, 11, 12, 13])]
+        for prior, cps in mem_hist:
+            make_prior(xdg, prior, tmpl)
+            for cp in cps:
+                dbopen("disk", probes, xdg=xdg, crash=cp, tag="c15")
+            rc, mlines = dbopen("mem", probes, xdg=xdg, tag="c15")
+            rc, lines = dbopen("disk", probes, xdg=xdg, tag="c15")
+            n += 1
+            name = f"prior={prior} crashes={cps} then an in-memory session, then an on-disk start"
+            if mlines != fresh:
+                spec_fail.append((f"history:mem:{prior}:{cps}", name, f"{name}: the in-memory session itself answers differently from a fresh one"))
+            elif lines != fresh:
+                diff = [C.unhex(l.split(" ")[1]) if l.startswith("A ") and len(l.split(" ")) > 1 else l for l, r in zip(lines, fresh) if l != r][:3]
+                spec_fail.append((f"history:mem:{prior}:{cps}", name, f"{name}: answers differ from a fresh in-memory database: {diff}"))
+            else:
+                nontriv += 1
         shutil.rmtree(xdg, ignore_errors=True)
         shutil.rmtree(tmpl, ignore_errors=True)
         # "written for other data" with NOTHING but the content different (same asset names, byte
@@ -655,8 +675,39 @@ class C18(Prop):
                     fails.append((f"isolation:{p}", " ; ".join(order[:k + 1]),
                                   f"lookup of {p!r} answered {r[:80]} after {k} other lookups on the same instance, but {fresh[p][:80]} on a fresh one"))
         distinct = len(set(fresh.values()))
-        return {"evaluations": n + len(P), "nontrivial": sum(1 for v in fresh.values() if v.startswith("L OK")),
-                "spec_fail": fails[:20], "dist": {"isolation-lookups": n, "fresh-instance-lookups": len(P), "distinct-answers": distinct},
+        # what `any --describe` REPORTS: one line per looked-up constant in evaluation order, each
+        # with its own description and its own source (constants with and without a source mixed,
+        # several results in one query) — composed independently from the library's descriptions
+        ok_b, _log = C.build_any_binary(False)
+        src_less = ["pi", "speed of light", "standard gravity g0"]
+        sourced = ["population finland", "mass earth", "radius moon", "population world", "mass of earth", "distance sun"]
+        dq = ["pi * population finland", "population finland * pi", "(mass of earth) (pi)", "(pi) (mass of earth) (pi)",
+              "speed of light to km/s", "2 * pi * radius moon", "pi", "mass earth", "nosuchfact here * pi", "pi * nosuchfact here"]
+        for _ in range(40 if tier == "quick" else 600):
+            k = rng.range(2, 4)
+            parts = [rng.choice(src_less if rng.chance(1, 2) else sourced) for _ in range(k)]
+            form = rng.below(3)
+            if form == 0:
+                dq.append((" " + rng.choice("*/") + " ").join(parts))
+            elif form == 1:
+                dq.append(" ".join(f"({p_})" for p_ in parts))
+            else:
+                dq.append(f"({parts[0]} * {parts[1]}) ({' * '.join(parts[1:])})")
+        dl = []
+        for q in dq:
+            dl += ["libdesc " + C.hexs(q), "clidesc " + C.hexs(q)]
+        rc, dout, err = C.run_lines(C.harness_bin(False), dl, watchdog=30) if ok_b else (1, [], "")
+        dn = 0
+        for i, q in enumerate(dq):
+            if 2 * i + 1 >= len(dout):
+                break
+            want, got = dout[2 * i], dout[2 * i + 1]
+            dn += 1
+            if want != got:
+                show = lambda e: [C.unhex(x) for x in e[2:].split("|")] if e.startswith("E ") and e != "E -" else e
+                fails.append((f"cli-describe:{q}", q, f"`any --describe '{q}'` reports {show(got)}, the library looked up and described {show(want)}"))
+        return {"evaluations": n + len(P) + dn, "nontrivial": sum(1 for v in fresh.values() if v.startswith("L OK")),
+                "spec_fail": fails[:20], "dist": {"isolation-lookups": n, "fresh-instance-lookups": len(P), "distinct-answers": distinct, "cli-describe-queries": dn},
                 "samples": [{"input": "lookup " + p, "implementation": fresh[p][:100]} for p in P[10:14]]}
 
     def cases(self, rng, tier):
